@@ -58,6 +58,10 @@ CHECKS = {
     text="every transform of the tf table is evaluated in every form that exists for it (REPL command, inline name(arg) through btcc, script opcode through batch btcdeb) on byte strings of every length 0..300 (quick 0..140 + boundaries) with several fillers, every single-character corruption of encoded base58check/bech32/bech32m strings, boundary integers, operand pairs for add/sub with and without modulus, Jacobi symbols, address conversions; results are compared with hashlib and independently written codecs and the forms are compared with each other",
     note="trusted: drivers/pyref_codec.py; argument conventions the tool itself rejects are recorded as observations (listed in the evidence)",
     tech="exhaustive enumeration of (transform, argument, form) over bounded argument alphabets with an independent oracle"),
+ "C13": dict(engine="mc_tx", cat=MC, design="DESIGN.md §3 C13",
+    text="a structure alphabet (input/output counts, every witness mix, script and witness-item lengths across the 252/253 and 65535/65536 compact-size boundaries, extreme versions/sequences/amounts) is enumerated exhaustively; every element is parsed by the real Instance::parse_transaction and compared field by field, re-serialised byte by byte, and its txid/wtxid compared with the reference; for a representative subset every proper prefix, every marker/flag byte value and several spelling variants must be accepted or rejected exactly as the reference parser decides; a closed set of decimal amount strings is converted exactly",
+    note="oracle: ref/reftx.hpp; trailing bytes and >8 fractional digits are outside the quantifier (observations)",
+    tech="exhaustive enumeration of a structure alphabet and of all single truncations / byte substitutions, reference codec as oracle"),
 }
 
 REASON_PENDING = "check under construction in this round; not claimed until its engine has run end-to-end"
